@@ -176,6 +176,46 @@ Theorem C02_http_failure_stops_chain : forall ts pre m r rest ps0,
 Proof. exact http_failure_stops_chain. Qed.
 Print Assumptions C02_http_failure_stops_chain.
 
+(* the caller's context is cancelled (or its deadline passes) while backend k = |pre| is
+   working, after k successful backends.  The merger takes from backend k either its answer
+   or the context error (o), and every later backend returns the context error e at once.
+   Then exactly backends 0..k are entered - plus backend k+1 when the answer of k was still
+   taken and was complete - in order, without overlap, never one more; and whatever the
+   caller receives is not flagged complete *)
+Theorem C02_cancel_mid_chain : forall ts pre o e rest ps0,
+  forallb ok_out pre = true ->
+  List.length ts = List.length (pre ++ o :: OErr e :: rest) ->
+  let run := seq_run ts (pre ++ o :: OErr e :: rest) ps0 in
+  map shape (fst run) = expected_shapes (if ok_out o then S (S (List.length pre)) else S (List.length pre)) /\
+  (forall x, fst (snd run) = Some x -> complete x = false).
+Proof. exact cancel_mid_chain. Qed.
+Print Assumptions C02_cancel_mid_chain.
+
+(* arrays as propagated values: an array of scalars becomes its elements' texts joined by
+   commas (the empty array the empty string); with C02_path_exact this is the text in the
+   path.  null becomes <nil>; nested arrays / objects print as Go's %v (fmt_v) *)
+Theorem C02_array_value_text : forall l,
+  Forall (fun v => scalar_text v <> None) l ->
+  param_of (JArr l) = join "," (map (fun v => match scalar_text v with Some s => s | None => "" end) l).
+Proof. exact param_of_scalar_array. Qed.
+Print Assumptions C02_array_value_text.
+
+(* the model also satisfies the oracle on the HTTP case kind (CSeqH) *)
+Theorem C02_model_meets_oracle_http : forall ts hs ps0,
+  List.length ts = List.length hs -> 2 <= List.length hs ->
+  Forall (fun x => match h_decoded (snd x) with Some d => wfj (JObj d) = true | None => True end) hs ->
+  spec_b ts (map (fun x => http_outcome (fst x) (snd x)) hs) ps0 (seq_run_http ts hs ps0) = true.
+Proof. exact model_meets_oracle_http. Qed.
+Print Assumptions C02_model_meets_oracle_http.
+
+(* sequential_propagated_params: the loop extended with the extra table entries (and
+   reporting request.Params per backend, compared with the real code in case kind CSeqP)
+   is the verified loop when no parameter is propagated *)
+Theorem C02_propagated_params_conservative : forall ts outs ps0,
+  (let '(e, _, r) := seq_run_x ts [] outs ps0 in (e, r)) = seq_run ts outs ps0.
+Proof. exact seq_run_x_nil. Qed.
+Print Assumptions C02_propagated_params_conservative.
+
 (* ---- non-vacuity ---- *)
 Definition ex_ts : list tmpl :=
   [[Lit "/b0"]; [Lit "/b1"]; [Lit "/b2/"; Hole 0 ["id"]; Lit "/"; Hole 1 ["o"; "k"]]].
@@ -259,4 +299,33 @@ Example C02_ex_http_404_details :
    (Some {| data := Some [("error_n1", JObj [("http_status_code", JNum "404"); ("http_body", JStr "gone");
                                              ("http_body_encoding", JStr "text/plain")]); ("a", JNum "1")];
             complete := false |}, RNone)).
+Proof. vm_compute. reflexivity. Qed.
+
+Example C02_ex_values_text :
+  param_of (JArr [JStr "a"; JNum "2"; JBool true]) = "a,2,true" /\ param_of (JArr []) = "" /\
+  param_of JNull = "<nil>" /\ param_of (JArr [JNull; JArr [JNum "1"; JNum "2"]]) = "<nil>,[1 2]" /\
+  param_of (JObj [("a", JNum "1"); ("k", JStr "v")]) = "map[a:1 k:v]".
+Proof. vm_compute. repeat split; reflexivity. Qed.
+
+(* both resolutions of the cancellation race *)
+Example C02_ex_cancel :
+  let ok d := OResp {| data := Some d; complete := true |} in
+  let ts := [[Lit "/b0"]; [Lit "/b1"]; [Lit "/b2"]] in
+  fst (seq_run ts [ok [("a", JNum "1")]; OErr (EOther "context canceled"); OErr (EOther "context canceled")] []) =
+    [ECall 0 "/b0"; ERet 0; ECall 1 "/b1"; ERet 1] /\
+  seq_run ts [ok [("a", JNum "1")]; ok [("b", JNum "2")]; OErr (EOther "context canceled")] [] =
+    ([ECall 0 "/b0"; ERet 0; ECall 1 "/b1"; ERet 1; ECall 2 "/b2"; ERet 2],
+     (Some {| data := Some [("b", JNum "2"); ("a", JNum "1")]; complete := false |}, RMerge [EOther "context canceled"])).
+Proof. vm_compute. split; reflexivity. Qed.
+
+Example C02_ex_propagated_params :
+  seq_run_x [[Lit "/b0"]; [Lit "/b1"]; [Lit "/b2/"; Hole 0 ["a"]]] [(0, ["l"]); (1, ["o"; "k"]); (7, ["x"])]
+    [OResp {| data := Some [("a", JStr "A"); ("l", JArr [JNum "1"; JNull])]; complete := true |};
+     OResp {| data := Some [("o", JObj [("k", JBool true)])]; complete := true |};
+     OResp {| data := Some []; complete := true |}] [("Id", "7")] =
+  ([ECall 0 "/b0"; ERet 0; ECall 1 "/b1"; ERet 1; ECall 2 "/b2/A"; ERet 2],
+   [(0, [("Id", "7")]); (1, [("Resp0_l", "1,<nil>"); ("Id", "7")]);
+    (2, [("Resp1_o.k", "true"); ("Resp0_l", "1,<nil>"); ("Resp0_a", "A"); ("Id", "7")])],
+   (Some {| data := Some [("o", JObj [("k", JBool true)]); ("a", JStr "A"); ("l", JArr [JNum "1"; JNull])];
+            complete := true |}, RNone)).
 Proof. vm_compute. reflexivity. Qed.
